@@ -27,6 +27,26 @@ type poolSite struct {
 // reinitThroughCallers: the acquisition at s sits in a generic helper; for every caller of the helper,
 // on every path of the caller (helper and the closures handed to it entered) every field of the caller's
 // concrete pooled struct is stored into the acquired object before the caller returns.
+// completedByCallback: the acquiring function calls one of its own func-typed parameters with the pooled object.
+func (P *Prog) completedByCallback(s *poolSite) bool {
+	found := false
+	eachInstr(s.fn, func(_ *ssa.BasicBlock, _ int, in ssa.Instruction) {
+		ci := callOf(in)
+		if ci == nil || !ci.dynamic {
+			return
+		}
+		if prm, ok := cv(ci.instr.Common().Value).(*ssa.Parameter); !ok || prm.Parent() != s.fn {
+			return
+		}
+		for _, a := range ci.args() {
+			if cvi(a) == cvi(s.obj) {
+				found = true
+			}
+		}
+	})
+	return found
+}
+
 func (P *Prog) reinitThroughCallers(r *Result, s *poolSite, testWBR bool, testWBRDetail string) bool {
 	R := P.roles
 	n := 0
@@ -364,6 +384,13 @@ func checkC07(P *Prog, r *Result) {
 				} else {
 					r.bad("C07/reinit", fname(s.fn)+"#"+elemName+".Reset", P.ipos(s.call), "pooled "+elemName+" is not Reset() on every path after acquisition: previous contents are observable")
 				}
+				continue
+			}
+			// the acquisition function hands the fresh object to a func parameter that completes it
+			// (`c.newIssue(func(e *ZogIssue) { e.Code = ...; ... })`): what is stored depends on the caller's
+			// closure, so the obligation is decided per caller, on the caller's paths with the helper and the
+			// closure entered
+			if P.completedByCallback(s) && P.reinitThroughCallers(r, s, testWBR, testWBRDetail) {
 				continue
 			}
 			ms := &mustStore{P: P, fn: s.fn, isObj: isObj, st: u}
